@@ -7,7 +7,10 @@
 //            prog = level ('/' level)*  one thread each: the host-started thread, then the sub-thread
 //                                      started by the level before it with `local.sr = thread s<i>`
 //            level = steps ',' final   steps: w<d> wait d ms | p<d> pause, a helper thread resumes
-//                                      this thread after d ms | t the sub-thread is started here
+//                                      this thread after d ms | t the sub-thread is started here |
+//                                      P<w<n>|p>(:<d><W<e>|U|D>)* a helper is started that waits d ms and
+//                                      then orders this thread `wait e` (W) / `pause` (U) / `delete` (D), ...;
+//                                      then this thread does `wait n` or `pause`
 //                                      final: e<val> end <literal> | r<j> end local.p<j> | L end local.sr
 //                                      (the sub-thread's result, possibly still pending) | x end |
 //                                      o fall off the end | k<d> pause, a helper deletes the thread
@@ -24,11 +27,12 @@
 //         S <r1> <r2>    result cell of r1 = result cell of r2          (copy assignment)
 //         U <r1> <r2>    result cell of r1 = std::move(result cell of r2) (move assignment)
 //         T <dt>         advance the clock     X  ScriptContext::Execute()     Z  ScriptMaster::Reset()
-//   out:  m <call> | <records> | n=<running scripts> th=<threads>
+//   out:  m <call> | <records> | n=<running scripts> th=<threads> vm=<VMs>
 //         call: - | nolabel | ok:<alive>:<param tokens>      records: r<rid>=<tok,..>
 #include "engine.h"
 #include <morfuse/Script/StateScript.h>
 #include <morfuse/Script/ScriptException.h>
+#include <cctype>
 #include <cmath>
 #include <cstring>
 #include <memory>
@@ -195,6 +199,28 @@ static std::string levelBody(const std::string& lvl, int index, bool hasNext, st
             body += "thread " + hn + " local\npause\n";
             ++nh;
             break;
+        case 'P': {                     // P<w<n>|p>(:<d><W<e>|U|D>)*  park with a helper that gives orders to this thread
+            std::vector<std::string> parts = split(st, ':');
+            std::string hb;
+            for (size_t i = 1; i < parts.size(); ++i) {
+                const std::string& a = parts[i];
+                size_t j = 0;
+                while (j < a.size() && std::isdigit((unsigned char)a[j])) ++j;
+                hb += waitText(j ? std::atoi(a.substr(0, j).c_str()) : 0);
+                const char c = j < a.size() ? a[j] : 'U';
+                if (c == 'W') hb += "local.t " + waitText(a.size() > j + 1 ? std::atoi(a.c_str() + j + 1) : 0);
+                else if (c == 'D') hb += "local.t delete\n";
+                else hb += "local.t pause\n";
+            }
+            if (parts.size() > 1) {
+                helpers += hn + " local.t:\n" + hb + "end\n";
+                body += "thread " + hn + " local\n";
+                ++nh;
+            }
+            if (parts[0].size() > 1 && parts[0][1] == 'w') body += waitText(std::atoi(parts[0].c_str() + 2));
+            else body += "pause\n";
+            break;
+        }
         case 'k':
             helpers += hn + " local.t:\n" + waitText(d) + "local.t delete\nend\n";
             body += "thread " + hn + " local\npause\nend 99\n";
@@ -300,8 +326,8 @@ static void observe(Host& h, const std::string& call)
         for (size_t i = 1; i <= n; ++i) { if (i > 1) d += ","; d += token(h, r.ev->GetValue(i)); }
     }
     if (d.empty()) d = "-";
-    std::printf("m %s | %s | n=%zu th=%zu\n", call.c_str(), d.c_str(), h.e.director().GetNumRunningScripts(),
-                h.e.ctx->GetAllocator().ScriptThread_allocator.Count());
+    std::printf("m %s | %s | n=%zu th=%zu vm=%zu\n", call.c_str(), d.c_str(), h.e.director().GetNumRunningScripts(),
+                h.e.ctx->GetAllocator().ScriptThread_allocator.Count(), h.e.ctx->GetAllocator().ScriptVM_allocator.Count());
 }
 
 static Host::Rec* rec(Host& h, long rid)
